@@ -103,6 +103,25 @@ def step (s : St) (ws : List String) : St × String :=
       let s' := { s with ctx := endFrame s.ctx }
       (s', dump (if dmg != "0" && ign == 0 then "err:checksum" else "ok") s')
   | ["start"] => let s' := if s.kind == 'p' then s else { s with ctx := startFrame s.ctx }; (s', dump "ok" s')
+  | ["sstart", _] =>
+      if s.kind != 'c' then (s, dump "bad-op" s) else
+      -- input accepted with ZSTD_e_continue (stable-input mode: its compression is deferred): the frame has begun
+      let s' := { s with ctx := startFrame s.ctx }; (s', dump "ok" s')
+  | ["seqframe", _, cap] =>
+      if s.kind != 'c' then (s, dump "bad-op" s) else
+      -- ZSTD_compressSequences: a whole frame in one call; a too-small destination fails after the frame was begun
+      if cap == "1" then
+        let s' := { s with ctx := startFrame s.ctx }
+        (s', dump "err:other" s')
+      else
+        let s' := { s with ctx := wholeFrame s.ctx }
+        (s', dump ("ok " ++ facts s) s')
+  | ["pledge"] | ["prefix"] | ["cdict"] =>
+      if s.kind != 'c' then (s, dump "bad-op" s) else
+      -- ZSTD_CCtx_setPledgedSrcSize(unknown) / ZSTD_CCtx_refPrefix / ZSTD_CCtx_refCDict(NULL): init stage only
+      match initStageOnly s.ctx with
+      | .ok c => let s' := { s with ctx := c }; (s', dump "ok" s')
+      | .error e => (s, dump (errStr e) s)
   | ["end"] => let s' := if s.kind == 'p' then s else { s with ctx := endFrame s.ctx }; (s', dump "ok" s')
   | ["reset", r] =>
       let rr := match r with | "1" => Reset.session | "2" => Reset.parameters | _ => Reset.sessionAndParameters
